@@ -225,22 +225,30 @@ fn check_taiko(run: &mut Run, id: &str, bytes: &[u8], mods: u32, rate: Option<f6
     if attrs.max_combo as usize != want_combo {
         run.fail("oracle:pipe-taiko-max-combo", "", id, format!("max_combo {} for {hits} hits, take {take:?}", attrs.max_combo), repro.clone());
     }
-    // gradual values: only in the class the C02 theorem covers (>= 3 objects, the first two are
-    // hits, the last is a hit) — the other classes are the recorded taiko gradual findings
-    let regular = take.is_none()
-        && n >= 3
-        && map.hit_objects[0].is_circle()
-        && map.hit_objects[1].is_circle()
-        && map.hit_objects[n - 1].is_circle();
+    // gradual values: every native taiko file (since the repair /repo ea9de37 the gradual calculator
+    // agrees with the one-shot path for every object list); only the final-vs-full comparison
+    // needs "the last object is a hit" (recorded finding taiko-gradual-trailing-nonhit)
+    let regular = take.is_none();
+    let last_is_hit = n > 0 && map.hit_objects[n - 1].is_circle();
     let mut gtail = String::new();
     let mut gflag = "";
     if regular {
         if let Ok(Ok(vals)) = guarded(|| TaikoGradualDifficulty::new(build(mods, rate, None), &map).map(|g| g.collect::<Vec<_>>())) {
             run.count("tpipe:stage:gradual");
             let steps: Vec<String> = vals.iter().map(|a| format!("{}:{}", show_z(a.stars), a.max_combo)).collect();
+            let hits = map.hit_objects.iter().filter(|h| h.is_circle()).count();
+            if vals.len() != hits {
+                run.fail("oracle:pipe-taiko-gradual-count", "", id, format!("{} values for {hits} hits", vals.len()), repro.clone());
+            }
+            if n < 3 || !map.hit_objects[0].is_circle() || !map.hit_objects[1].is_circle() {
+                run.count("tpipe:gradual:formerly-excluded-class");
+            }
             gtail = format!(" G{}", crate::common::show_long(&steps));
             gflag = " G";
-            if let Some(last) = vals.last() {
+            if !last_is_hit {
+                run.count("tpipe:gradual:last-object-not-a-hit");
+            }
+            if let Some(last) = vals.last().filter(|_| last_is_hit) {
                 if *last != attrs {
                     run.fail("oracle:pipe-taiko-gradual-last-vs-full", "", id, format!("{last:?} vs {attrs:?}"), repro.clone());
                 }
